@@ -42,6 +42,30 @@ FINITE_ITERATORS = (
     "<std::collections::hash_map::IntoIter<K, V> as std::iter::Iterator>::next",
 )
 
+ADAPTORS = ("std::iter::Enumerate", "std::iter::Rev", "std::iter::Peekable", "std::iter::Skip", "std::iter::Take", "std::iter::Map", "std::iter::Filter", "std::iter::Zip", "std::iter::Chain", "std::iter::Copied", "std::iter::Cloned", "std::iter::FilterMap", "std::iter::TakeWhile", "std::iter::SkipWhile", "std::iter::StepBy", "std::iter::Fuse", "std::iter::Inspect")
+FINITE_BASES = ("std::str::Split<", "std::str::RSplit<", "std::str::Chars<", "std::str::CharIndices<", "std::str::Bytes<", "std::slice::Iter<", "std::slice::IterMut<", "std::vec::IntoIter<", "std::collections::hash_map::Iter<", "std::collections::hash_map::IntoIter<", "std::collections::hash_map::Keys<", "std::collections::hash_map::Values<", "std::str::SplitN<", "std::str::RSplitN<", "std::str::Lines<", "std::option::IntoIter<", "std::ops::Range<")
+
+
+def finite_iterator(npath, term):
+    """Is `<X as Iterator>::next` the next of a finite std iterator, possibly wrapped in length-preserving/shrinking adaptors?"""
+    if npath in FINITE_ITERATORS:
+        return True
+    m = npath
+    if m.startswith("<") and " as std::iter::Iterator>::next" in m and any(m[1:].startswith(a) for a in ADAPTORS):
+        # the instantiated iterator type is in the callee's generic args
+        args = term["callee"].get("args", []) + (term["callee"].get("resolved") or {}).get("args", [])
+        for a in args:
+            inner = a
+            for _ in range(6):
+                hit = [ad for ad in ADAPTORS if inner.startswith(ad + "<")]
+                if not hit:
+                    break
+                inner = inner[len(hit[0]) + 1:]
+            if inner.startswith(FINITE_BASES):
+                return True
+    return False
+
+
 R_DOCPANIC = {
     # (fn-name / trait, impl self) -> what the property documents
     ("index", "std::ops::Index", "qualifiers::Qualifiers"): "indexing a qualifier that is absent",
@@ -275,7 +299,7 @@ def rule_loop(ctx):
                 continue
             nb, it, npath = heads[h]
             exits_only_on_none = True
-            if npath in FINITE_ITERATORS:
+            if finite_iterator(npath, b.term(nb)):
                 ctx.ob("LOOP", "loop over a finite std iterator (%s)" % npath.split(" as ")[0].strip("<"), True, fn=k, site=b.site(h), detail=npath)
             elif npath in facts.bodies:
                 # local iterator: must forward to a finite one
@@ -343,9 +367,17 @@ def rule_clippy(ctx):
     ctx.ob("CLIPPY-XREF", "every clippy restriction-lint site (%s) is in the audit's site set" % ", ".join(lints), not miss, detail="%d clippy sites; not in the audit: %s" % (len(found), miss[:8]))
 
 
+def rule_controls(ctx):
+    from . import controls
+    if ctx.tier == 'thorough':
+        controls.control_panic(ctx)
+        controls.control_loop(ctx)
+
+
 RULES = [
+    ("CONTROL", rule_controls, 0),
     ("PANIC", rule_panic, 30),
-    ("LOOP", rule_loop, 10),
+    ("LOOP", rule_loop, 1),
     ("NOREC", rule_norec, 1),
     ("CLIPPY-XREF", rule_clippy, 0),
 ]
